@@ -250,6 +250,15 @@ func runFWorkload(t *testing.T, id string, cfg fcfg) (map[string]interface{}, *f
 					if ci == 0 {
 						s.ExtMutate(sim.SecretInfo.GVR(), ns, "sec-"+name, func(o sim.Obj) { sim.SetNested(o, fmt.Sprint(phase), "data", "n") })
 					}
+				case 4: // the set of desired children shrinks or grows (children no longer desired are deleted)
+					n := 1 + (phase+i)%3
+					s.ExtMutate(sim.ThingInfo.GVR(), ns, name, func(o sim.Obj) {
+						var kids []interface{}
+						for k := 0; k < n; k++ {
+							kids = append(kids, sim.KidSpec(kindInfo(kinds[ci]), "", fmt.Sprintf("%s-%s-k%d", strings.ToLower(kinds[ci]), name, k), "v1"))
+						}
+						sim.SetNested(o, kids, "spec", "kids")
+					})
 				}
 				_ = c
 			}
